@@ -190,6 +190,19 @@ def order_rule(fi, loop, pm):
             return [violation("ORDER", fi, role, "results are accumulated conditionally or by `%s`" % unparse(nested[0])[:50], nested[0])]
         return [unrecognised("ORDER", fi, role, "expected exactly one top-level <list>.append in the batch loop, found %d" % len(appends), loop)]
     acc = appends[0].value.func.value.id
+    # the only skip allowed before the append is the empty-slice guard (`X_.shape[0] == 0` / `len(X_) == 0`): any other continue / break in
+    # the loop body means that the outputs of some batches are dropped
+    k_app = loop.body.index(appends[0])
+    for s_ in loop.body[:k_app]:
+        for n_ in walk_no_nested(s_):
+            if isinstance(n_, (ast.Continue, ast.Break)):
+                g = pm.get(n_)
+                gt = unparse(g.test) if isinstance(g, ast.If) else ""
+                if not (isinstance(g, ast.If) and any(n_ is b for b in g.body) and
+                        gt.replace(" ", "") in ("X_.shape[0]==0", "len(X_)==0", "0==X_.shape[0]", "X_.shape[0]<1", "X_.numel()==0")):
+                    from ..core import named
+                    return [named("ORDER", fi, role, "a `%s` under `%s` precedes the append: the outputs of those batches are dropped and the rows "
+                                  "no longer line up with the examples" % (type(n_).__name__.lower(), gt[:60]), n_)]
     # what is appended must be the forward output of this iteration
     appended = appends[0].value.args[0] if appends[0].value.args else None
     uses = [n for n in walk_no_nested(fi.node) if isinstance(n, ast.Name) and n.id == acc]
